@@ -3,6 +3,7 @@ import UtilModel.RefCount.ObsOnce
 import UtilModel.RefCount.ObsHeld
 import UtilModel.RefCount.ObsHidden
 import UtilModel.RefCount.ObsEv
+import UtilModel.RefCount.ConsLift
 open UtilModel UtilModel.RefCount
 #print axioms UtilModel.accepts_sound
 #print axioms UtilModel.accepted_satisfies
@@ -30,3 +31,5 @@ open UtilModel UtilModel.RefCount
 #print axioms RefCount.step_relTh
 #print axioms RefCount.rel_eventually_obs
 #print axioms RefCount.c08_obs
+#print axioms RefCount.Cons.lift_sim
+#print axioms RefCount.Cons.c08c_obs
